@@ -610,6 +610,29 @@ class POneOf(PSort):
         return self.vals[-1]
 
 
+class PObjOneOf(PSort):
+    """loop-head value of an object-valued variable: one of the given singletons / a fresh object of one of the
+    given classes.  The executor checks at every back edge that the actual value is within this domain."""
+
+    def __init__(self, singletons=(), classes=()):
+        self.singletons = list(singletons)
+        self.classes = list(classes)
+
+    def make(self, ex, name):
+        for i, sgl in enumerate(self.singletons):
+            if ex.choose(Bool('%s.is-singleton%d' % (name, i)), 'objdomain'):
+                return sgl
+        for i, cls in enumerate(self.classes[:-1]):
+            if ex.choose(Bool('%s.is-class%d' % (name, i)), 'objdomain'):
+                return Obj(cls, {'value': Int(name + '.value')}, name=name)
+        return Obj(self.classes[-1], {'value': Int(name + '.value')}, name=name)
+
+    def admits(self, v):
+        if any(v is sgl for sgl in self.singletons):
+            return True
+        return isinstance(v, Obj) and v.cls in self.classes
+
+
 class POptions(PSort):
     """the **options record: declared constant keys, each possibly absent."""
 
@@ -625,7 +648,7 @@ class POptions(PSort):
 
 class Loop:
     def __init__(self, invariant=(), variant=None, decl=None, index=None, iter_ensures=(), havoc_fields=(),
-                 unroll=False):
+                 unroll=False, yields_each_iteration=False):
         self.invariant = list(invariant)
         self.variant = variant
         self.decl = decl or {}
@@ -633,13 +656,14 @@ class Loop:
         self.iter_ensures = list(iter_ensures)
         self.havoc_fields = list(havoc_fields)   # e.g. 'substrate.pos'
         self.unroll = unroll
+        self.yields_each_iteration = yields_each_iteration   # progress: an iteration that loops back yielded
 
 
 class Contract:
     def __init__(self, id, file, qual, params, requires=(), ensures=(), raises=None, may_raise=None,
                  loops=None, calls=None, globals=None, yield_ensures=(), returns=None, modifies=(),
                  prop=None, replay=None, properties=(), note='', is_generator=False, getter=None,
-                 exit_ensures=(), defaults=None, assume_after=None, ghost=None, external=()):
+                 exit_ensures=(), defaults=None, assume_after=None, ghost=None, external=(), raise_ensures=None, hints=()):
         self.id = id
         self.file = file
         self.qual = qual
@@ -662,7 +686,9 @@ class Contract:
         self.prop = prop                          # 'getter'/'setter' for @property targets
         self.defaults = defaults or {}
         self.ghost = ghost or {}
-        self.external = set(external)             # names of ensures that carry the property (others: scaffolding)
+        self.external = set(external)
+        self.hints = list(hints)     # instances of spec lemmas: proved standalone, then assumed at exit
+        self.raise_ensures = dict(raise_ensures or {})   # E: [clauses over the state at the raise]             # names of ensures that carry the property (others: scaffolding)
 
 
 class CallContract:
@@ -705,6 +731,14 @@ class CallContract:
                     raise _Raise(ExcV(exc))
             if c.returns is None:
                 raise Unsupported('callee %s declares no result sort' % c.id)
+            if c.modifies:
+                # effectful callee: havoc its frame, then assume the two-state postcondition
+                ex.old_env = ex.snapshot(env)
+                for path in c.modifies:
+                    base, attr = path.rsplit('.', 1)
+                    o = ex.spec_val(base, env)
+                    o.fields[attr] = ex.havoc_value(o.fields[attr], 'mod:%s!%d' % (path, ex.fresh_ctr.setdefault('mod', 0)))
+                    ex.fresh_ctr['mod'] += 1
             res = c.returns.make(ex, 'ret:%s!%d' % (c.id.split('::')[-1], ex.fresh_ctr.setdefault('ret', 0)))
             ex.fresh_ctr['ret'] += 1
             env2 = dict(env, result=res)
@@ -810,6 +844,7 @@ class Executor:
             self.writes = []
             self.ghost = {}
             self.last_call = {}
+            self.vy = False          # ghost: a result value (not an underrun marker) has been yielded
             self.path_count += 1
             if self.path_count > self.MAX_PATHS:
                 raise Unsupported('path explosion (> %d paths)' % self.MAX_PATHS)
@@ -927,6 +962,11 @@ class Executor:
             clauses = c.exit_ensures
         else:
             clauses = c.ensures
+        for i, h in enumerate(c.hints):
+            f = z3bool(self.spec_bool(h, env))
+            self.vcs.append(VC('%s#lemma-instance.%d' % (c.id, i), [], f, [], 'lemma',
+                               'instance of a spec lemma, proved on its own (no path condition), then used'))
+            self.pc.append(f)
         for i, cl in enumerate(clauses):
             name, text = cl if isinstance(cl, tuple) else (str(i), cl)
             self.vc('%s#post.%s' % (c.id, name), self.spec_bool(text, env), kind='external')
@@ -936,6 +976,10 @@ class Executor:
 
     def on_raise(self, exc):
         c = self.c
+        for name, clauses in c.raise_ensures.items():
+            if exc_isa(self.exc_graph, exc.cls, name):
+                for i, cl in enumerate(clauses):
+                    self.vc('%s#raise-post.%s.%d' % (c.id, name, i), self.spec_bool(cl, self.env), kind='external')
         for table, strict in ((c.raises, True), (c.may_raise, False)):
             for name, when in table.items():
                 if exc_isa(self.exc_graph, exc.cls, name):
@@ -1118,6 +1162,8 @@ class Executor:
         return sorted(set(names))
 
     def havoc(self, names, loop, lid):
+        if self.is_generator:
+            self.vy = self.fresh('value_yielded!L%d' % lid, BoolSort())
         for m, d in loop.decl.items():
             self.env[m] = d.make(self, '%s!L%d' % (m, lid)) if isinstance(d, PSort) else d
         for m in names:
@@ -1170,6 +1216,7 @@ class Executor:
         g = truthy(self.ev(s.test))
         if self.choose(g, 'while%d' % lid):
             self.iter_old_env = self.snapshot(self.env)
+            ntrace = len(self.trace)
             try:
                 self.exec_block(s.body)
             except _Continue:
@@ -1177,8 +1224,15 @@ class Executor:
             except _Break:
                 return
             self.vc(pre + '.preserve', self.inv(spec, self.env))
+            for dn, dv in spec.decl.items():
+                if isinstance(dv, PObjOneOf):
+                    self.vc('%s.decl-domain.%s' % (pre, dn), BoolVal(dv.admits(self.env.get(dn))),
+                            note='object-valued loop variable stays within its declared domain')
             for i, cl in enumerate(spec.iter_ensures):
                 self.vc('%s.iter_post.%d' % (pre, i), self.spec_bool(cl, self.env), kind='external')
+            if spec.yields_each_iteration:
+                self.vc(pre + '.progress', BoolVal(len(self.trace) > ntrace), kind='external',
+                        note='an iteration that loops back must have yielded (no busy loop inside a generator)')
             if v0 is not None:
                 v1 = toint(self.spec_val(spec.variant, self.env))
                 self.vc(pre + '.variant', And(v0 >= 0, v1 < v0))
@@ -1295,6 +1349,10 @@ class Executor:
         tname = s.target.id if isinstance(s.target, ast.Name) else None
         ok, why = d1_forwarding_shape(s)
         self.vc(pre + '.proto.D1', BoolVal(ok), kind='external', note=why)
+        # D5: the protocol's result is the *last* yielded item, so once a real value has been yielded the
+        # generator must not yield again -- and reading more input can yield an underrun marker
+        self.vc('%s#proto.D5.value-is-last' % self.c.id, z3bool(b_not(self.vy)), kind='external',
+                note='input is consumed (possible underrun yield) after the result value was already yielded')
         final = model(self, *args, **kwargs)     # may fork / raise / add yields to the trace
         self.trace.append(('forwarded-underruns', ast.unparse(it.func)))
         if tname is None:
@@ -1926,10 +1984,19 @@ class Executor:
         self.on_yield(v)
         return None
 
+    def is_result_value(self, v):
+        if v is None or (isinstance(v, ExcV) and exc_isa(self.exc_graph, v.cls, 'SubstrateUnderrunError')):
+            return False
+        if v is END_OF_OCTETS:
+            return False
+        return True
+
     def on_yield(self, v):
         c = self.c
         idx = len([t for t in self.trace if t[0] == 'yield'])
         self.trace.append(('yield', v))
+        if self.is_result_value(v):
+            self.vy = True
         env = self.spec_env(self.env, y=v, nyield=idx)
         for i, cl in enumerate(c.yield_ensures):
             name, text = cl if isinstance(cl, tuple) else (str(i), cl)
@@ -1961,6 +2028,13 @@ class Executor:
             return self.ev_in(self.old_env, n.args[0])
         if key == 'iter_old':
             return self.ev_in(self.iter_old_env, n.args[0])
+        if key == 'value_yielded':
+            return self.vy
+        if key == 'last_yield':
+            ys = [t[1] for t in self.trace if t[0] == 'yield']
+            return ys[-1] if ys else Obj('NoYield', {}, name='<no yield>')
+        if key == 'nyields':
+            return len([t for t in self.trace if t[0] == 'yield'])
         if key in ('last_result', 'last_args'):
             k = n.args[0].value
             if k not in self.last_call:
@@ -2349,6 +2423,7 @@ def default_globals():
             'tag': dict(tagc, __name__='tag'),
             'error': {'__name__': 'error'},
             'os': {'SEEK_SET': 0, 'SEEK_CUR': 1, 'SEEK_END': 2, '__name__': 'os'},
+            'io': {'BytesIO': ClassV('BytesIO'), 'IOBase': ClassV('IOBase'), '__name__': 'io'},
             'null': SeqV(Empty(S), 'bytes'),
             'ints2octs': FnV(_ints2octs, 'ints2octs'), 'int2oct': FnV(_int2oct, 'int2oct'),
             'oct2int': FnV(_identity, 'oct2int'), 'octs2ints': FnV(_identity, 'octs2ints'),
@@ -2411,7 +2486,7 @@ def discharge(vc, rlimit=None, timeout_ms=None):
     s = z3.Solver()
     if rlimit or RLIMIT:
         s.set('rlimit', rlimit or RLIMIT)
-    s.set('timeout', timeout_ms or TIMEOUT_MS)
+    s.set('timeout', (timeout_ms or TIMEOUT_MS) if vc.kind != 'lemma' else 2000)
     for p in vc.pc:
         s.add(p)
     s.add(Not(vc.goal))
@@ -2421,18 +2496,27 @@ def discharge(vc, rlimit=None, timeout_ms=None):
         return 'proved', dt, None, 'z3'
     if r == z3.sat:
         return 'refuted', dt, s.model(), 'z3'
-    # second attempt: different tactic / seed
-    s2 = z3.Solver()
-    s2.set('timeout', timeout_ms or TIMEOUT_MS)
-    s2.set('smt.random_seed', 7)
-    s2.set('smt.arith.solver', 2)
-    for p in vc.pc:
-        s2.add(p)
-    s2.add(Not(vc.goal))
-    r = s2.check()
-    dt = time.time() - t0
-    if r == z3.unsat:
-        return 'proved', dt, None, 'z3(alt)'
-    if r == z3.sat:
-        return 'refuted', dt, s2.model(), 'z3(alt)'
-    return 'unknown', dt, None, 'z3:' + s.reason_unknown()
+    # second opinion on the same query text: the other installed solvers (z3 4.8.12 CLI, cvc5 CLI).
+    # Only `unsat` is taken from them (a proof); anything else leaves the obligation undecided.
+    import subprocess
+    import tempfile
+    text = '(set-logic ALL)\n' + s.to_smt2()
+    fd, path = tempfile.mkstemp(suffix='.smt2', prefix='pyvc-')
+    try:
+        with os.fdopen(fd, 'w') as f:
+            f.write(text)
+        for name, cmd in (('z3-4.8', ['/usr/bin/z3', '-T:%d' % max(5, (timeout_ms or TIMEOUT_MS) // 1000), path]),
+                          ('cvc5', ['/usr/bin/cvc5', '--strings-exp', '--tlimit=%d' % (timeout_ms or TIMEOUT_MS), path])):
+            try:
+                p = subprocess.run(cmd, capture_output=True, text=True, timeout=(timeout_ms or TIMEOUT_MS) / 1000 + 10)
+            except (OSError, subprocess.TimeoutExpired):
+                continue
+            out = (p.stdout or '').strip().split('\n')[0] if p.stdout else ''
+            if out == 'unsat':
+                return 'proved', time.time() - t0, None, name
+    finally:
+        try:
+            os.unlink(path)
+        except OSError:
+            pass
+    return 'unknown', time.time() - t0, None, 'z3:' + s.reason_unknown()
